@@ -110,6 +110,10 @@ func (c *coalescing) Run(ctx context.Context, ch chan<- struct{}) error {
 
 	// Prevent wg race condition on Close and Run.
 	c.lock.Lock()
+	if c.closed.Load() {
+		c.lock.Unlock()
+		return nil
+	}
 	c.wg.Add(1)
 	c.lock.Unlock()
 	defer c.wg.Done()
@@ -228,6 +232,9 @@ func (c *coalescing) reset() {
 func (c *coalescing) Add() {
 	c.lock.Lock()
 	defer c.lock.Unlock()
+	if c.closed.Load() {
+		return
+	}
 	c.pendingEvents++
 	c.wg.Add(1)
 	go func() {
@@ -240,12 +247,13 @@ func (c *coalescing) Add() {
 }
 
 func (c *coalescing) Close() {
-	defer func() {
-		// Prevent wg race condition on Close and Run.
-		c.lock.Lock()
-		c.wg.Wait()
-		c.lock.Unlock()
-	}()
+	// Prevent wg race condition on Close and Run: closed is set while holding
+	// the lock, and Run and Add only add to the wait group under the lock and
+	// while not closed. The lock must not be held while waiting, because the
+	// run loop needs it to handle an event it has already received.
+	defer c.wg.Wait()
+	c.lock.Lock()
+	defer c.lock.Unlock()
 	if c.closed.CompareAndSwap(false, true) {
 		close(c.closeCh)
 	}
